@@ -564,3 +564,5 @@ def run(ctx):
     ctx.guarded(r, AC.check_hazards, "grad_slice")
     for n in ("call_fn_unary", "call_fn_binary"):
         ctx.guarded(r, AK.check_call_helper, "grad_slice", n)
+    r = ctx.rule("R6b", "x86_64 gradient assembler: single-instruction builders and moves act on all four lanes of their operands", 9)
+    ctx.guarded(r, AC.check_simple_builders, "grad_slice")
